@@ -150,7 +150,56 @@ def record_ledger(unit, repo):
         shutil.rmtree(work, ignore_errors=True)
 
 
+def run_replay(pid, pc, tier, repo, work, replay):
+    """--replay FILE: discharge again, against the current tree, the one obligation a replay file names. Exit 1 with
+    the VIOLATION line if it still fails, 0 if the verifier accepts it now, 2 if it cannot be decided."""
+    rec = json.load(open(replay))
+    ob = rec.get('obligation', '')
+    if rec.get('back_end') == 'kani':
+        if kani_run is None:
+            print('UNDECIDED kani route unavailable')
+            return 2
+        h = ob.split('::')[-1]
+        r = kani_run.run_groups([h], 'thorough' if tier == 'thorough' else 'quick', repo, work)
+        if any(v[0] == h for v in r['violations']):
+            print('VIOLATION property=%s replay=%s no-failing-input-found' % (pid, replay))
+            print('  failed obligation (replayed): kani::%s' % h)
+            return 1
+        if r['undecided']:
+            for m in r['undecided']:
+                print('UNDECIDED %s' % m)
+            return 2
+        print('OK replay: kani harness %s is discharged on the current tree' % h)
+        return 0
+    u, _, f = ob.partition('::')
+    if u not in P.UNITS:
+        print('UNDECIDED replay file names an unknown unit: %s' % ob)
+        return 2
+    uc = P.UNITS[u]
+    r = verify_unit(u, repo, work, uc.get('rlimit', 50), uc.get('timeout', 120) * (5 if tier == 'thorough' else 1), False, 8)
+    if r.status == 'ok':
+        print('OK replay: %s is discharged on the current tree (%d functions of unit %s verified)' % (ob, len(r.functions), u))
+        return 0
+    if r.status == 'violation':
+        failed = [x for x, _ in r.failed]
+        if f in failed:
+            all_texts = []
+            for _, tx in r.failed:
+                all_texts.extend(tx)
+            print('VIOLATION property=%s replay=%s no-failing-input-found' % (pid, replay))
+            print('  failed obligation (replayed): %s' % ob)
+            for t in blocks_for_fn(r.unit, f, all_texts)[:3]:
+                print('  | ' + t.strip().replace('\n', '\n  | ')[:1500])
+            return 1
+        print('UNDECIDED replay: %s verifies, but other obligations of unit %s fail: %s' % (ob, u, failed[:5]))
+        return 2
+    print('UNDECIDED replay: unit %s: %s: %s' % (u, r.status, r.reason))
+    return 2
+
+
 def run_check(pid, pc, tier, seed, repo, work, t0, replay):
+    if replay:
+        return run_replay(pid, pc, tier, repo, work, replay)
     units = list(pc['units'])
     results = {}
     canaries = {}
